@@ -3,6 +3,8 @@
 //! Explicit-state BFS; every transition is a call into the real
 //! `fuel_merkle::binary::{MerkleTree, in_memory::MerkleTree}`.
 //!
+//! Both models also have bulk letters PushN(4) and PushN(7) (medium leaf counts at small
+//! depth; total leaves capped at 24).
 //! Model A (in-memory tree): actions Push(a|b), Reset. Key = history (the wrapper's
 //!   node storage is a private hash map, so nothing is merged).
 //! Model B (storage-backed tree over the harness-owned node storage): actions
@@ -57,8 +59,19 @@ type Tree = binary::MerkleTree<Table, Store>;
 #[derive(Debug, Clone, Serialize, Deserialize, PartialEq, Eq, Hash)]
 enum Act {
     Push(u8),
+    /// Push `n` leaves at once (tags alternate starting with `tag`): makes medium
+    /// leaf counts (7, 8, 11, 15 …) reachable at small search depth, which is where
+    /// stale storage nodes of a longer earlier history coincide with intermediate
+    /// nodes of a shorter current tree.
+    PushN(u8, u8),
     Reset,
     Load(u64),
+}
+
+const MAX_LEAVES: usize = 24;
+
+fn bulk_tags(tag: u8, n: u8) -> Vec<u8> {
+    (0..n).map(|i| if i % 2 == 0 { tag } else { tag + 1 }).collect()
 }
 
 fn leaf_data(tag: u8) -> Vec<u8> {
@@ -164,6 +177,7 @@ fn check_obs(
 
 struct InMem {
     alphabet: Vec<u8>,
+    bulk: Vec<u8>,
 }
 
 #[derive(Clone)]
@@ -186,8 +200,16 @@ impl Model for InMem {
         }
     }
 
-    fn actions(&self, _s: &InMemState) -> Vec<Act> {
-        let mut v: Vec<Act> = self.alphabet.iter().map(|t| Act::Push(*t)).collect();
+    fn actions(&self, s: &InMemState) -> Vec<Act> {
+        let mut v: Vec<Act> = Vec::new();
+        if s.refl.len() < MAX_LEAVES {
+            v.extend(self.alphabet.iter().map(|t| Act::Push(*t)));
+        }
+        for n in &self.bulk {
+            if s.refl.len() + *n as usize <= MAX_LEAVES {
+                v.push(Act::PushN(self.alphabet[0], *n));
+            }
+        }
         v.push(Act::Reset);
         v
     }
@@ -196,6 +218,11 @@ impl Model for InMem {
         let mut n = s.clone();
         let r = guard::catch_any(|| match a {
             Act::Push(t) => n.tree.push(&leaf_data(*t)),
+            Act::PushN(t, k) => {
+                for x in bulk_tags(*t, *k) {
+                    n.tree.push(&leaf_data(x))
+                }
+            }
             Act::Reset => n.tree.reset(),
             Act::Load(_) => {}
         });
@@ -207,6 +234,7 @@ impl Model for InMem {
         }
         match a {
             Act::Push(t) => n.refl.push(*t),
+            Act::PushN(t, k) => n.refl.extend(bulk_tags(*t, *k)),
             Act::Reset => n.refl.clear(),
             Act::Load(_) => {}
         }
@@ -236,6 +264,7 @@ impl Model for InMem {
 
 struct Stored {
     alphabet: Vec<u8>,
+    bulk: Vec<u8>,
 }
 
 /// The storage-backed tree is rebuilt by replaying the history (the tree owns its
@@ -256,17 +285,24 @@ fn stored_replay(hist: &[Act]) -> Result<StoredState, String> {
     let mut stored: Vec<u8> = vec![];
     for a in hist {
         match a {
-            Act::Push(t) => {
-                let d = leaf_data(*t);
-                let r = guard::catch_any(|| tree.push(&d));
-                match r {
-                    Ok(Ok(())) => {}
-                    Ok(Err(e)) => return Err(format!("push error {e:?}")),
-                    Err(m) => return Err(format!("push panicked: {m}")),
+            Act::Push(_) | Act::PushN(_, _) => {
+                let tags = match a {
+                    Act::Push(t) => vec![*t],
+                    Act::PushN(t, k) => bulk_tags(*t, *k),
+                    _ => unreachable!(),
+                };
+                for t in tags {
+                    let d = leaf_data(t);
+                    let r = guard::catch_any(|| tree.push(&d));
+                    match r {
+                        Ok(Ok(())) => {}
+                        Ok(Err(e)) => return Err(format!("push error {e:?}")),
+                        Err(m) => return Err(format!("push panicked: {m}")),
+                    }
+                    stored.truncate(refl.len());
+                    stored.push(t);
+                    refl.push(t);
                 }
-                stored.truncate(refl.len());
-                stored.push(*t);
-                refl.push(*t);
             }
             Act::Reset => {
                 let r = guard::catch_any(|| tree.reset());
@@ -305,7 +341,15 @@ impl Model for Stored {
     }
 
     fn actions(&self, s: &StoredState) -> Vec<Act> {
-        let mut v: Vec<Act> = self.alphabet.iter().map(|t| Act::Push(*t)).collect();
+        let mut v: Vec<Act> = Vec::new();
+        if s.refl.len() < MAX_LEAVES {
+            v.extend(self.alphabet.iter().map(|t| Act::Push(*t)));
+        }
+        for n in &self.bulk {
+            if s.refl.len() + *n as usize <= MAX_LEAVES {
+                v.push(Act::PushN(self.alphabet[0], *n));
+            }
+        }
         v.push(Act::Reset);
         for k in 0..=s.stored.len() as u64 {
             v.push(Act::Load(k));
@@ -361,17 +405,19 @@ fn explore(ctx: &Ctx) {
     );
     ctx.assume("sha2 crate and the harness RFC 6962 reference are correct");
     ctx.assume("Load(k) is only issued for k <= leaves consistently persisted (see model B comment)");
-    let (da, db) = ctx.pick((8usize, 6usize), (12, 9));
+    let (da, db) = ctx.pick((6usize, 4usize), (8, 6));
     let a = InMem {
         alphabet: vec![0, 1],
+        bulk: vec![4, 7],
     };
     let sa = bfs::bfs(&a, da, 5_000_000, ctx);
-    ctx.set("inmem", json!({"depth": sa.completed_depth, "states": sa.states, "transitions": sa.transitions, "per_depth": sa.per_depth, "alphabet": ["Push(empty)", "Push(1 byte)", "Reset"]}));
+    ctx.set("inmem", json!({"depth": sa.completed_depth, "states": sa.states, "transitions": sa.transitions, "per_depth": sa.per_depth, "alphabet": ["Push(empty)", "Push(1 byte)", "PushN(4)", "PushN(7)", "Reset"], "max_leaves": MAX_LEAVES}));
     let b = Stored {
         alphabet: vec![1, 2],
+        bulk: vec![4, 7],
     };
     let sb = bfs::bfs(&b, db, 5_000_000, ctx);
-    ctx.set("stored", json!({"depth": sb.completed_depth, "states": sb.states, "transitions": sb.transitions, "per_depth": sb.per_depth, "alphabet": ["Push(1 byte)", "Push(32 bytes)", "Reset", "Load(k<=stored)"]}));
+    ctx.set("stored", json!({"depth": sb.completed_depth, "states": sb.states, "transitions": sb.transitions, "per_depth": sb.per_depth, "alphabet": ["Push(1 byte)", "Push(32 bytes)", "PushN(4)", "PushN(7)", "Reset", "Load(k<=stored)"], "max_leaves": MAX_LEAVES}));
 }
 
 fn replay(case: &Value, ctx: &Ctx) {
@@ -380,6 +426,7 @@ fn replay(case: &Value, ctx: &Ctx) {
         Some("inmem") => bfs::replay_path(
             &InMem {
                 alphabet: vec![0, 1],
+                bulk: vec![4, 7],
             },
             &acts,
             ctx,
@@ -387,6 +434,7 @@ fn replay(case: &Value, ctx: &Ctx) {
         Some("stored") => bfs::replay_path(
             &Stored {
                 alphabet: vec![1, 2],
+                bulk: vec![4, 7],
             },
             &acts,
             ctx,
